@@ -90,6 +90,55 @@ var scripts = map[string][]op{
 	},
 }
 
+func init() {
+	// members with out-of-enum permission values (int32 on the wire: negative and large values exist)
+	// are powerless: every manager-only operation they sign must be refused
+	odd := []op{
+		one(0, add(pair{1, pAdmin}, pair{3, pWriter}, pair{4, pReader})),      // 1
+		one(1, add(pair{5, -1}, pair{6, 2147483647})),                         // 2: accepted, by an admin
+		one(0, add(pair{7, -2147483648})),                                     // 3
+		one(0, content{K: "inv", Typ: 1, Perm: pReader, Key: 1, HasRK: true}), // 4
+	}
+	for _, a := range []int{5, 6, 7} {
+		odd = append(odd,
+			one(a, content{K: "pc", Acc: 4, Perm: pWriter}),
+			one(a, add(pair{2, pReader})),
+			one(a, content{K: "rem", Accs: []int{4}, Rk: full(0, 1, 3, 5, 6, 7)}),
+			one(a, content{K: "inv", Typ: 0, Key: 2}),
+			one(a, content{K: "irv", Rec: 4}),
+			one(a, content{K: "ich", Rec: 4, Perm: pWriter}),
+			one(a, content{K: "rkc", Rk: &rkc{MdOK: true, HasMeta: true, HasOld: true, Accs: []int{0, 1, 3, 4, 5, 6, 7}, Invs: []int{1}}}),
+			one(a, content{K: "opt", Opt: 1}),
+			one(a, content{K: "own", Acc: a, Perm: pWriter}),
+		)
+	}
+	odd = append(odd,
+		one(3, content{K: "rrm"}), // a request of 3
+		one(5, content{K: "acc", Acc: 3, Rec: 5, Perm: pWriter}),
+		one(5, content{K: "dec", Rec: 5}),
+		one(1, content{K: "pc", Acc: 5, Perm: pWriter}), // an admin may re-permission it
+	)
+	scripts["odd-permission-values"] = odd
+
+	// invites of an unknown type carry any permission level and must never be joinable
+	scripts["odd-invite-types"] = []op{
+		one(0, add(pair{1, pAdmin})),                                          // 1
+		one(1, content{K: "inv", Typ: 2, Perm: pAdmin, Key: 0, HasRK: true}),  // 2: admin, unknown type, Admin level: accepted
+		one(1, content{K: "inv", Typ: -1, Perm: pOwner, Key: 1, HasRK: true}), // 3
+		one(1, content{K: "inv", Typ: 7, Perm: pWriter, Key: 2}),              // 4
+		one(1, content{K: "inv", Typ: 1, Perm: pAdmin, Key: 2, HasRK: true}),  // refused: AnyoneCanJoin at Admin level needs the owner
+		one(6, content{K: "ijn", Acc: 6, Rec: 2, Perm: pNone, SigKey: 0, SigAcc: 6, HasRK: true}),
+		one(6, content{K: "ijn", Acc: 6, Rec: 2, Perm: pAdmin, SigKey: 0, SigAcc: 6, HasRK: true}),
+		one(6, content{K: "ijn", Acc: 6, Rec: 2, Perm: pReader, SigKey: 0, SigAcc: 6, HasRK: true}),
+		one(7, content{K: "ijn", Acc: 7, Rec: 3, Perm: pNone, SigKey: 1, SigAcc: 7, HasRK: true}),
+		one(7, content{K: "ijn", Acc: 7, Rec: 4, Perm: pWriter, SigKey: 2, SigAcc: 7, HasRK: true}),
+		one(7, content{K: "rjn", Acc: 7, Rec: 2, SigKey: 0, SigAcc: 7}),
+		one(1, content{K: "ich", Rec: 2, Perm: pWriter}),
+		one(1, content{K: "irv", Rec: 3}),
+	}
+	scriptOrder = append(scriptOrder, "odd-permission-values", "odd-invite-types")
+}
+
 var scriptOrder = []string{"accept-remove-request", "accept-stale-join-request", "guest-rules", "admin-role-owner-only", "ordinary-member", "key-rotation"}
 
 func (s *session) runScripts() {
